@@ -1109,36 +1109,191 @@ def stream_probes(ctx):
         run_oracle(ctx, c, objs)
 
 
-# ------------------------------------------------------------------ stream: forwarding wrappers (oracle only)
+# ------------------------------------------------------------------ stream: forwarding wrappers
 
-def stream_wrappers(ctx):
-    """pure *args/**kwargs pass-through: the reported signature is the wrapped callable's"""
+def stream_star_args_probe(ctx):
+    """`*args` forwarding (`def wrapper(*args, **kwargs): return f(*args, **kwargs)`): in this sandbox
+    (empty typeshed) TreeArguments.unpack -> _iterate_star_args -> `array.py__getattribute__('__iter__')`
+    on the tuple instance recurses in klass.get_filters (RecursionError), so the shape cannot be
+    judged here.  Kept as a probe: where it does answer, the parameters must be the wrapped ones."""
     rng = ctx.subrng('wrap')
-    n = ctx.size(2, 6)   # sandbox: no typeshed -> *args unpacking recurses (RecursionError); kept as a probe
-    objs = {}
-    for _ in range(n):
+    for i in range(ctx.size(2, 6)):
         sh = rng.choice([s for s in shapes(3)])
         sig = rng.choice(sig_variants(sh, rng, False))
-        # defaults/annotations of the wrapped function are shown as they are
-        def_src = 'def inner(%s):\n    pass\ndef f(*args, **kwargs):\n    return inner(*args, **kwargs)\n' % sig_text(sig)
-        src = def_src + 'f('
-        c = {'kind': 'wrapper', 'def_src': def_src, 'callee': 'f', 'src': src, 'line': src.count('\n') + 1,
-             'col': 2, 'prev_specs': [], 'cur': {'t': 'empty'}, 'mode': 'prefix', 'feature': 'wrapper'}
-        real = real_case(src, c['line'], 2)
+        if i % 2:
+            def_src = ('def deco(g):\n    def wrapper(*args, **kwargs):\n        return g(*args, **kwargs)\n'
+                       '    return wrapper\n@deco\ndef inner(%s):\n    pass\n' % sig_text(sig))
+            callee = 'inner'
+        else:
+            def_src = 'def inner(%s):\n    pass\ndef f(*args, **kwargs):\n    return inner(*args, **kwargs)\n' % sig_text(sig)
+            callee = 'f'
+        src = def_src + callee + '('
+        real = real_case(src, src.count('\n') + 1, len(callee) + 1)
         if 'exc' in real or real.get('nsigs') != 1:
             ctx.count('oracle:wrapper', src, nontrivial=False,
                       bucket='unjudged: %s@%s' % (real.get('exc'), real.get('site')) if 'exc' in real else 'no-signature')
             continue
-        obj, g = exec_def(def_src, 'inner')
-        pysig, pyparams = py_params(obj)
+        g = {}
+        exec('def inner(%s):\n    pass\n' % sig_text(sig), g)
+        pysig, pyparams = py_params(g['inner'])
         got = [(p['name'], p['kind']) for p in real['params']]
         ctx.count('oracle:wrapper', src, nontrivial=bool(pyparams), bucket='n=%d' % len(pyparams))
         if got != pyparams:
             ctx.fail('oracle:wrapper', 'pass-through wrapper does not report the wrapped callable\'s parameters',
-                     {'source': def_src, 'callee': 'f', 'feature': 'wrapper'},
+                     {'source': def_src, 'callee': callee, 'feature': 'wrapper'},
                      expected=[[n_, KIND_NAMES[k]] for n_, k in pyparams],
                      observed=[[n_, KIND_NAMES[k]] for n_, k in got],
-                     how='jedi.Script(source + "f(").get_signatures()[0].params vs inspect.signature(inner)')
+                     how='jedi.Script(source + callee + "(").get_signatures()[0].params vs inspect.signature(inner)')
+
+
+OWN_PARAMS = [
+    # (po, pk, vp, ko) of the wrapper itself, names disjoint from NAME_POOL
+    ([], [], None, []), ([], [], None, []), ([], [], None, []),
+    ([], ['x'], None, []), (['x'], [], None, []), ([], [], None, ['y']), ([], ['x'], None, ['y']),
+    ([], ['x'], 'rest', []), ([], [], 'rest', []), (['x'], ['z'], None, ['y']),
+]
+
+
+def gen_forward(rng):
+    """one wrapper program that forwards **kwargs (only) -> dict"""
+    inner = rng.choice(sig_variants(rng.choice(shapes(4)), rng, False))
+    if rng.random() < 0.75:
+        # mostly callees that a keyword-only call can satisfy (see finding C11-kwforward-required-positional-only)
+        while any(p['dflt'] is None for p in inner['po']):
+            inner = rng.choice(sig_variants(rng.choice(shapes(4)), rng, False))
+    po, pk, vp, ko = rng.choice(OWN_PARAMS)
+    kwname = rng.choice(['kwargs', 'kw'])
+    own = {'po': [P(n) for n in po], 'pk': [P(n) for n in pk], 'vp': P(vp) if vp else None,
+           'ko': [P(n, dflt='1') if rng.random() < 0.5 else P(n) for n in ko], 'vk': P(kwname)}
+    count = rng.choice([0, 0, 0, 0, 1, 1, 2])
+    inner_names = sig_names(inner)
+    keys = []
+    if rng.random() < 0.3:
+        keys = rng.sample(inner_names + ['zz'], 1)
+    given = ['1'] * count + ['%s=2' % k for k in keys]
+    fwd = ', '.join(given + ['**' + kwname])
+    layout = rng.choice(['plain', 'plain', 'deco', 'method', 'two'])
+    second = None
+    ind = lambda t: ''.join('    ' + l + '\n' for l in t.rstrip('\n').split('\n'))
+    if layout == 'plain':
+        src = 'def inner(%s):\n    pass\ndef f(%s):\n    return inner(%s)\n' % (sig_text(inner), sig_text(own), fwd)
+        callee, fname, bound, dinner, douter = 'f', 'f', False, inner, own
+    elif layout == 'deco':
+        src = ('def deco(g):\n    def wrapper(%s):\n        return g(%s)\n    return wrapper\n'
+               '@deco\ndef inner(%s):\n    pass\n' % (sig_text(own), fwd, sig_text(inner)))
+        callee, fname, bound, dinner, douter = 'inner', 'wrapper', False, inner, own
+    elif layout == 'method':
+        dinner, douter = with_first(inner, 'self'), with_first(own, 'self')
+        src = 'class C:\n' + ind('def inner(%s):\n    pass\ndef f(%s):\n    return self.inner(%s)\n'
+                                 % (sig_text(dinner), sig_text(douter), fwd))
+        callee, fname, bound = 'C().f', 'f', True
+    else:
+        second = rng.choice(sig_variants(rng.choice(shapes(3)), rng, False))
+        src = ('def inner(%s):\n    pass\ndef other(%s):\n    pass\ndef f(%s):\n    if 1:\n        return inner(%s)\n'
+               '    return other(**%s)\n' % (sig_text(inner), sig_text(second), sig_text(own), fwd, kwname))
+        callee, fname, bound, dinner, douter = 'f', 'f', False, inner, own
+    callees = [{'sig': dinner, 'bound': bound, 'count': count, 'keys': keys}]
+    if second is not None:
+        callees.append({'sig': second, 'bound': False, 'count': 0, 'keys': []})
+    pure = second is None and not given
+    return {'src': src, 'callee': callee, 'fname': fname, 'bound': bound, 'outer': douter, 'callees': callees,
+            'inner': inner, 'own': own, 'layout': layout, 'pure': pure,
+            'own_plain': not (po or pk or vp or ko)}
+
+
+def oracle_kwforward(ctx, w, real):
+    """exactly the calls that bind against the reported signature run without TypeError
+    (bodies are `pass` / a single forwarding call: a TypeError can only come from argument binding)"""
+    obj, _ = exec_def(w['src'], w['callee'])
+    case = {'source': w['src'], 'callee': w['callee'],
+            'feature': 'kwforward-required-positional-only'
+            if any(p['dflt'] is None for p in w['inner']['po']) else 'kwforward'}
+    how = ('reported = jedi.Script(source + callee + "(").get_signatures()[0].to_string(); for every call of '
+           'up to 2 positional and 3 keyword arguments: inspect.Signature.bind on the re-parsed reported '
+           'signature vs really calling the executed wrapper')
+    ctx.count('oracle:kwforward', (w['src'], w['callee']), nontrivial=True,
+              bucket='%s/%s' % (w['layout'], 'pure' if w['own_plain'] else 'own-params'),
+              sample={'source': w['src'], 'callee': w['callee'], 'to_string': real['to_string']})
+    try:
+        rsig = sig_from_text(real['to_string'])
+    except Exception as e:  # noqa
+        ctx.fail('oracle:kwforward', 'to_string() of the forwarded signature does not parse', case,
+                 observed={'to_string': real['to_string'], 'error': repr(e)}, how=how)
+        return
+    names = list(dict.fromkeys([p['name'] for p in real['params']] + sig_names(w['inner']) +
+                               sig_names(w['own'])[:-1] + ['zz']))
+    npos_max = len(w['own']['po']) + len(w['own']['pk']) + 1
+    for npos in range(npos_max + 1):
+        for r in range(0, 4):
+            for kws in itertools.combinations(names, r):
+                kw = {k: 0 for k in kws}
+                try:
+                    rsig.bind(*([0] * npos), **kw)
+                    binds = True
+                except TypeError:
+                    binds = False
+                try:
+                    obj(*([0] * npos), **kw)
+                    runs = True
+                except TypeError:
+                    runs = False
+                if binds != runs:
+                    ctx.fail('oracle:kwforward',
+                             'a call binds against the reported signature but raises TypeError (or the reverse)',
+                             case, expected={'runs': runs},
+                             observed={'to_string': real['to_string'], 'call': {'positional': npos, 'keywords': list(kws)},
+                                       'binds_reported': binds, 'runs': runs}, how=how)
+                    return
+
+
+def stream_forward(ctx, reqs, metas):
+    """wrappers that forward **kwargs (only): correspondence with `processParamsKw` for every
+    generated program, direct oracle for the pure pass-through ones"""
+    rng = ctx.subrng('forward')
+    seen = set()
+    for _ in range(ctx.size(140, 2500)):
+        w = gen_forward(rng)
+        if w['src'] in seen:
+            continue
+        seen.add(w['src'])
+        src = w['src'] + w['callee'] + '('
+        real = real_case(src, src.count('\n') + 1, len(w['callee']) + 1)
+        if 'exc' in real or real.get('nsigs') != 1:
+            ctx.count('raised' if 'exc' in real else 'oracle:reported', src, nontrivial=False,
+                      bucket='forward: %s@%s' % (real.get('exc'), real.get('site')) if 'exc' in real else 'forward: no signature')
+            ctx.fail('oracle:kwforward', 'no single signature for a **kwargs forwarding wrapper',
+                     {'source': w['src'], 'callee': w['callee'], 'feature': 'kwforward'}, observed=real,
+                     how='jedi.Script(source + callee + "(").get_signatures()')
+            continue
+        reqs.append({'op': 'fwd', 'outer': w['outer'], 'bound': w['bound'], 'callees': w['callees'],
+                     'fname': w['fname'], 'ret': ''})
+        metas.append(('fwd', {'source': w['src'], 'callee': w['callee'], 'layout': w['layout'],
+                              'given': [w['callees'][0]['count'], w['callees'][0]['keys']]}, real))
+        if w['pure']:
+            oracle_kwforward(ctx, w, real)
+
+
+def stream_pyaccepts(ctx, reqs, metas):
+    """`pyAccepts` (the Python side of kwforward_accepts_iff) against real calls"""
+    rng = ctx.subrng('pyaccepts')
+    shs = shapes(4)
+    for _ in range(ctx.size(400, 10000)):
+        sig = rng.choice(sig_variants(rng.choice(shs), rng, False))
+        names = sig_names(sig)
+        obj, _ = exec_def('def f(%s): pass\n' % sig_text(sig), 'f')
+        npos = rng.choice([0, 0, 0, 1, 2, 3, 4])
+        required = [p['name'] for p in sig['pk'] + sig['ko'] if p['dflt'] is None]
+        pool = names + ['zz']
+        kws = [k for k in pool if rng.random() < 0.35]
+        if rng.random() < 0.5:
+            kws = list(dict.fromkeys(kws + required))
+        try:
+            obj(*([0] * npos), **{k: 0 for k in kws})
+            want = True
+        except TypeError:
+            want = False
+        reqs.append({'op': 'pyaccepts', 'sig': sig, 'npos': npos, 'kws': kws})
+        metas.append(('pyaccepts', {'def': 'def f(%s)' % sig_text(sig), 'npos': npos, 'kws': kws}, want))
 
 
 # ------------------------------------------------------------------ driver
@@ -1174,7 +1329,9 @@ def run(ctx):
     for c in cases:
         run_oracle(ctx, c, objs)
     stream_probes(ctx)
-    stream_wrappers(ctx)
+    stream_star_args_probe(ctx)
+    stream_forward(ctx, reqs, metas)
+    stream_pyaccepts(ctx, reqs, metas)
     if ctx.model_ok:
         answers = common.run_driver_parallel('C11', reqs)
         parsed_defs = {}
@@ -1197,6 +1354,20 @@ def run(ctx):
                 if ans != extra:
                     # the model of CPython is wrong: our machinery, not jedi
                     raise common.InfraError('pyBind disagrees with CPython: %r model=%r cpython=%r' % (meta, ans, extra))
+            elif stream == 'fwd':
+                real = extra
+                ctx.count('forward', meta['source'], nontrivial=True,
+                          bucket='%s/given=%s' % (meta['layout'], 'yes' if (meta['given'][0] or meta['given'][1]) else 'no'),
+                          sample={'case': meta, 'impl': real['to_string']})
+                if real['params'] != ans['params'] or real['to_string'] != ans['to_string']:
+                    ctx.tie_broken('correspondence:forward',
+                                   short({'case': meta, 'impl': [real['params'], real['to_string']], 'model': ans}, 1500))
+            elif stream == 'pyaccepts':
+                ctx.count('pyaccepts', json.dumps(meta, sort_keys=True), nontrivial=True,
+                          bucket='npos=%d/%s' % (meta['npos'], 'accepted' if extra else 'TypeError'),
+                          sample={'case': meta, 'cpython': extra})
+                if ans != extra:
+                    raise common.InfraError('pyAccepts disagrees with CPython: %r model=%r cpython=%r' % (meta, ans, extra))
             elif stream == 'pybound':
                 ctx.count('pybound', json.dumps(meta, sort_keys=True), nontrivial=True,
                           bucket='no-signature' if extra is None else 'n=%d' % len(extra),
